@@ -189,6 +189,49 @@ Fixpoint enc_runs2 (t : ctab) (data : data_t) : option (ctab * list (nat * list 
 Definition encode_v2 (data : data_t) : option (list (nat * list inv2) * ctab) :=
   match enc_runs2 [] data with Some (t, out) => Some (out, t) | None => None end.
 
+(** what a receiver of an API v2 request does: the value at (0-based) position j of the column of
+    criterion index c in the entry of invocation n is the measurement (n, j+1, criterion c, value);
+    None is padding. *)
+Definition meas := (nat * nat * nat * Z)%type.                     (* invocation, iteration, criterion, value *)
+Fixpoint dec_col (inv c pos : nat) (col : list (option Z)) : list meas :=
+  match col with
+  | [] => []
+  | None :: r => dec_col inv c (S pos) r
+  | Some v :: r => (inv, S pos, c, v) :: dec_col inv c (S pos) r
+  end.
+Definition crit_or0 (t : ctab) (i : nat) : nat := match ctab_crit i t with Some c => c | None => 0 end.
+Fixpoint dec_cols_from (t : ctab) (inv k : nat) (ms : list col) : list meas :=
+  match ms with
+  | [] => []
+  | c :: r => dec_col inv (crit_or0 t k) 0 c ++ dec_cols_from t inv (S k) r
+  end.
+Definition dec_inv2 (t : ctab) (x : inv2) : list meas := dec_cols_from t (i_in x) 0 (i_m x).
+Definition decode_v2_run (t : ctab) (l : list inv2) : list meas := flat_map (dec_inv2 t) l.
+Definition decode_v2 (p : list (nat * list inv2) * ctab) : list (nat * list meas) :=
+  map (fun re => (fst re, decode_v2_run (snd p) (snd re))) (fst p).
+(* the measurements of a run's data points *)
+Definition meas_of_dp (d : dpt) : list meas := map (fun cv => (d_inv d, d_it d, fst cv, snd cv)) (d_ms d).
+Definition meas_of (ds : list dpt) : list meas := flat_map meas_of_dp ds.
+
+(* executable guards of the v2 theorems (Proofs/DbCacheV2P.v: wf_data, contig) *)
+Fixpoint nodupb (l : list nat) : bool :=
+  match l with [] => true | x :: r => negb (existsb (Nat.eqb x) r) && nodupb r end.
+Definition dp_before (d d' : dpt) : bool :=
+  match d_ms d' with [] => true | _ => negb (Nat.eqb (d_inv d') (d_inv d)) || Nat.ltb (d_it d') (d_it d) end.
+Fixpoint wf_fromb (done ds : list dpt) : bool :=
+  match ds with
+  | [] => true
+  | d :: r => Nat.leb 1 (d_it d) && nodupb (map fst (d_ms d)) && forallb (dp_before d) done && wf_fromb (done ++ [d]) r
+  end.
+Definition wf_datab (data : data_t) : bool := forallb (fun rd => wf_fromb [] (snd rd)) data.
+Definition opt_is (cur : option nat) (n : nat) : bool := match cur with Some m => Nat.eqb m n | None => false end.
+Fixpoint contig_fromb (seen : list nat) (cur : option nat) (ds : list dpt) : bool :=
+  match ds with
+  | [] => true
+  | d :: r => (opt_is cur (d_inv d) || negb (existsb (Nat.eqb (d_inv d)) seen)) && contig_fromb (d_inv d :: seen) (Some (d_inv d)) r
+  end.
+Definition contig_datab (data : data_t) : bool := forallb (fun rd => contig_fromb [] None (snd rd)) data.
+
 (* number of measurements, as reported by both converters *)
 Definition count_ms (data : data_t) : nat :=
   fold_right (fun rd acc => fold_right (fun d a => length (d_ms d) + a) acc (snd rd)) 0 data.
@@ -206,5 +249,15 @@ Definition sx_v2 (p : option (list (nat * list inv2) * ctab)) : sx :=
   | None => L []
   | Some q => L [sx_list (sx_pair sx_nat (sx_list sx_inv2)) (fst q); sx_ctab (snd q)]
   end.
+
+Definition sx_meas (m : meas) : sx :=
+  match m with (i, it, c, v) => L [sx_nat i; sx_nat it; sx_nat c; sx_Z v] end.
+(* guards + what the model's receiver reads from the model's request *)
+Definition sx_v2_decoded (data : data_t) : sx :=
+  L [sx_bool (wf_datab data); sx_bool (contig_datab data);
+     match encode_v2 data with
+     | None => L []
+     | Some p => L [sx_list (sx_pair sx_nat (sx_list sx_meas)) (decode_v2 p)]
+     end].
 
 Definition srv_of (l : list answer) : server := fun k => nth k l Refuse.
